@@ -30,14 +30,38 @@ def kern(spec, a, b):
   return hp[0] * phi(spec["cls"], r)
 
 
+# Lives in which the array the hyperparameters were HANDED OVER in is written to afterwards by its owner (the caller): the usual
+# `h[:] = ...; cov = Kernel(h)` loop over one re-used buffer, or an optimiser that keeps iterating on the vector it passed to the setter.
+WRITTEN_LIVES = ("buffer_written", "assigned_written", "buffer_late")
+_OTHER = [1.7, 0.6, 2.3, 0.45, 1.3, 0.8, 3.1, 0.7, 1.9, 0.5, 2.7, 0.9, 1.1]
+
+
+def other_hp(hp):
+  """different, valid (positive, finite) hyperparameters of the same length: what a kernel is first built with in the re-assigning lives, and
+  what the caller writes into its own buffer in the WRITTEN_LIVES"""
+  hp = numpy.array(hp, dtype=float)
+  return hp * numpy.array(_OTHER[: len(hp)] + [1.5] * max(0, len(hp) - len(_OTHER)))
+
+
+def write_caller_buffer(k):
+  """the caller re-uses the array it handed the hyperparameters over in (life "buffer_late": make_gp does this once the GP is built)"""
+  buf = getattr(k, "_verif_caller_buffer", None)
+  if buf is not None:
+    buf[:] = other_hp(k._verif_stated_hp)
+    k._verif_caller_buffer = None
+
+
 def make_cov(spec):
   """spec["life"]: how the kernel object came to carry spec["hp"] - "fresh" (constructed with them), "reassigned" (constructed with other
   values, then `.hyperparameters = hp`), "inplace" (constructed from an array that is then overwritten in place and assigned again - what an
-  in-place optimiser or the likelihood's setter does).  Whatever the history, the object must be the kernel with hyperparameters hp."""
+  in-place optimiser or the likelihood's setter does), "readmod" (the caller scribbles on what the getter returned), and the WRITTEN_LIVES:
+  "buffer_written" (constructed from a float64 ndarray that its owner overwrites right afterwards), "assigned_written" (the same through
+  the setter), "buffer_late" (constructed from such an array, which is overwritten only after a GP has been built on the kernel: make_gp /
+  write_caller_buffer).  Whatever the history, the object must be the kernel with hyperparameters hp."""
   import libsigopt.compute.covariance as cv
   hp = numpy.array(spec["hp"], dtype=float)
   life = spec.get("life", "fresh")
-  first = hp if life in ("fresh", "readmod") else hp * numpy.array([1.7, 0.6, 2.3, 0.45, 1.3, 0.8, 3.1, 0.7, 1.9, 0.5, 2.7, 0.9, 1.1][: len(hp)] + [1.5] * max(0, len(hp) - 13))
+  first = hp if life in ("fresh", "readmod", "buffer_written", "buffer_late") else other_hp(hp)
   arr = numpy.array(first, dtype=float)
   if spec["cls"] == "multitask":
     from libsigopt.compute.multitask_covariance import MultitaskTensorCovariance
@@ -55,25 +79,70 @@ def make_cov(spec):
       got *= 3.0
     except (TypeError, ValueError):
       pass
+  elif life == "buffer_written":
+    arr[:] = other_hp(hp)
+  elif life == "assigned_written":
+    buf = numpy.array(hp, dtype=float)
+    k.hyperparameters = buf
+    buf[:] = other_hp(hp)
+  elif life == "buffer_late":
+    k._verif_caller_buffer, k._verif_stated_hp = arr, hp.copy()
   return k
+
+
+# The forms in which a caller may hand the SAME numbers over as an array: what an entry point returns must not depend on them.
+#   int      integer dtype - what numpy.array() makes of lists of Python ints (one-hot points of an int / categorical domain) - when every entry is integral
+#   float32  single precision, when every entry is exactly representable in it
+#   fortran  column-major memory layout;  strided: a non-contiguous view into a larger buffer;  readonly: flags.writeable = False
+HANDOVER_STYLES = ("float64", "int", "float32", "fortran", "strided", "readonly")
+
+
+def handover(values, style):
+  a = numpy.array(values, dtype=float)
+  if style in (None, "float64") or a.size == 0 or a.ndim not in (1, 2):
+    return a
+  if style == "int":
+    return a.astype(numpy.int64) if bool(numpy.all(a == numpy.round(a))) and float(numpy.abs(a).max()) < 2.0 ** 53 else a
+  if style == "float32":
+    b = a.astype(numpy.float32)
+    return b if numpy.array_equal(b.astype(float), a) else a
+  if style == "fortran":
+    return numpy.asfortranarray(a)
+  if style == "strided":
+    big = numpy.full(tuple(2 * n + 1 for n in a.shape), -12345.678)
+    view = big[tuple(slice(1, 2 * n, 2) for n in a.shape)]
+    view[...] = a
+    return view
+  if style == "readonly":
+    a.flags.writeable = False
+    return a
+  raise ValueError(style)
 
 
 def make_gp(inp):
   from libsigopt.compute.gaussian_process import GaussianProcess
   from libsigopt.compute.misc.data_containers import HistoricalData
-  pts = numpy.array(inp["points"], dtype=float)
+  style = inp.get("data_style")      # the form the caller's data arrays are handed over in (HANDOVER_STYLES; None: fresh float64 arrays)
+  pts = handover(inp["points"], style)
   hd = HistoricalData(pts.shape[1])
-  vals, noise = numpy.array(inp["values"], dtype=float), numpy.array(inp["noise"], dtype=float)
+  vals, noise = handover(inp["values"], style), handover(inp["noise"], style)
   hd.append_historical_data(pts, vals, noise)
-  gp = GaussianProcess(make_cov(inp["cov"]), hd, mean_poly_indices=inp.get("mean_idx"), tikhonov_param=inp.get("tikhonov"))
+  cov = make_cov(inp["cov"])
+  gp = GaussianProcess(cov, hd, mean_poly_indices=inp.get("mean_idx"), tikhonov_param=inp.get("tikhonov"))
+  write_caller_buffer(cov)   # life "buffer_late": the hyperparameter array is the caller's too
   # the caller's buffers are the caller's: re-using them afterwards must not reach the model (it matters at the next re-factorisation)
-  pts *= -3.0
-  vals += 1e3
-  noise *= 0.0
+  if style != "readonly":     # (nobody can write to a read-only array: handing one over is its own test - the library must not write to it either)
+    pts[...] = pts * -3.0
+    vals[...] = vals + 1e3
+    noise[...] = noise * 0.0
   return gp
 
 
-def gen_gp_input(rng, differentiable=False, well_conditioned=False, allow_multitask=True, max_n=9, max_dim=3):
+def gen_gp_input(rng, differentiable=False, well_conditioned=False, allow_multitask=True, max_n=9, max_dim=3, caller_writes=False):
+  """caller_writes: also draw the kernel lives in which the caller re-uses the array it handed the hyperparameters over in (WRITTEN_LIVES).  Opt-in:
+  on the unchanged library the kernel keeps computing with the values handed over, but its `hyperparameters` getter then reports the array's NEW
+  content (RadialCovariance keeps a reference in _hyperparameters) - an oracle that reads the hyperparameters back from the object instead of
+  taking them from the input must not use these lives."""
   dim = rng.randint(1, max_dim)
   n = rng.randint(dim + 2, max_n)
   pool = DIFF if differentiable else KERNELS
@@ -83,7 +152,7 @@ def gen_gp_input(rng, differentiable=False, well_conditioned=False, allow_multit
   else:
     ls = [rng.uniform(0.15, 0.5) if well_conditioned else 10 ** rng.uniform(-1, 0.5) for _ in range(dim)]
     cov = dict(cls=rng.choice(pool), hp=[10 ** rng.uniform(-0.5, 0.5)] + ls)
-  cov["life"] = rng.choice(["fresh", "fresh", "reassigned", "inplace", "readmod"])
+  cov["life"] = rng.choice(["fresh", "fresh", "reassigned", "inplace", "readmod"] + (list(WRITTEN_LIVES) if caller_writes else []))
   pts = [[rng.uniform(0, 1) for _ in range(dim)] for _ in range(n)]
   if not well_conditioned:
     r = rng.random()
